@@ -147,7 +147,7 @@ def r3_shape(ctx):
             if p.exit != "return":
                 continue
             v = p.value
-            tag = ",".join("%s" % x for _c, x in p.conds) or "-"
+            tag = Q.tags(p.conds) or "-"
             ok = None
             if v[0] == "call" and v[1][0] == "attr" and v[1][2] == "reshape" and len(v[2]) == 1:
                 s = v[2][0]
@@ -163,7 +163,7 @@ def r3_shape(ctx):
         if p.exit != "return":
             continue
         v = Q.unseq(p.value)
-        tag = ",".join("%s" % x for _c, x in p.conds) or "-"
+        tag = Q.tags(p.conds) or "-"
         ok = None
         if v[0] == "comp" and v[2][0] == "call" and v[2][1][0] == "attr" and v[2][1][2] == "reshape" and len(v[2][2]) == 1:
             ok = True if canon(v[2][2][0]) == canon(bshape()) else (False if v[2][2][0][0] == "attr" and v[2][2][0][1][0] == "sub" else None)
